@@ -27,7 +27,9 @@ RULE = ("Engine B: states = pattern lists generated (trie of patterns, then of l
         "compiled) model states reached by BFS, transitions = operations applied, traces = complete histories "
         "replayed on a fresh paragraph in tree mode.  Non-trivial = (list, name) pairs whose verdict is a match or a "
         "format error (plain 'no match' is the trivial verdict); histories in which the list changes between two "
-        "matches() calls; (document, name) pairs where first and last matching paragraph differ")
+        "matches() calls; (document, name) pairs where first and last matching paragraph differ.  sweep: states = "
+        "pattern lists built around one swept literal, transitions = the same, traces = (route, list, name) triples, "
+        "each on a fresh paragraph (a few coincide with triples of the single/pairs parts)")
 BUDGET = {"quick": 240, "thorough": 3000}
 
 HEADER = "Format: https://www.debian.org/doc/packaging-manuals/copyright-format/1.0/\n"
@@ -45,6 +47,10 @@ def bounds(tier):
             "pairs": "all ordered pairs of patterns of length 1..2 (42^2 lists)",
             "triples": "all triples of patterns of length 1 (6^3 lists)",
             "routes": list(ROUTES),
+            "sweep": "one literal at a time: c = each of %d characters (printable ASCII without * ? \\ and white space, "
+                     "%d non-ASCII letters) in the lists %r x names %r, both routes"
+                     % (len(sweep_chars()), len(SWEEP_NON_ASCII), [[p.replace("%", "<c>") for p in l] for l in SWEEP_LISTS],
+                        [n.replace("%", "<c>") for n in SWEEP_NAMES]),
             "history_depth": {"quick": 3, "thorough": 5}[tier], "history_lists": 5, "history_names": 4,
             "history_graph": "fixpoint over (current list, compiled list)",
             "doc_paragraphs": "1..3 Files paragraphs over a 6-list pool x every subset of the k+1 gaps holding a "
@@ -62,6 +68,9 @@ def assumptions():
             "match; the statement does not say which paragraphs have to be consulted",
             "seeds rotate the two literal characters (a -> q . |, b -> Z $ e-acute): a literal is any character "
             "other than * ? \\ and white space, regex metacharacters included",
+            "sweep: the swept literals are the printable non-blank ASCII characters other than * ? \\ and a few non-ASCII "
+            "letters; control characters are not swept (a pattern is a whitespace-separated word of a deb822 value and "
+            "what the deb822 layer does to control characters is not this property's business)",
             "the model (backtracking) is cross-checked against an independent table-driven matcher on every "
             "single pattern x name"]
 
@@ -92,6 +101,58 @@ def doc_pool(seed):
     return [["*"], [a + "*"], ["?"], ["*" + b, a], ["\\*"], [a + "\\"]]
 
 
+# ------------------------------------------------------------------------------------------------ sweep
+
+SWEEP_NON_ASCII = ["é", "ß", "Ω", "я", "中", "ø", "ж", "λ"]
+SWEEP_LISTS = [["%"], ["a%"], ["%*"], ["*%"], ["?%"], ["a", "%"]]
+SWEEP_NAMES = ["%", "a%", "%a", "a", "ac", "", "%%"]
+SWEEP_CHUNK = 9
+
+
+def sweep_chars():
+    return [chr(cp) for cp in range(0x21, 0x7F) if chr(cp) not in "*?\\"] + SWEEP_NON_ASCII
+
+
+def sweep_items(c):
+    """-> (pattern lists, names) for one swept literal, canonical order, no repetitions"""
+    lists, names = [], []
+    for l in SWEEP_LISTS:
+        x = [p.replace("%", c) for p in l]
+        if x not in lists:
+            lists.append(x)
+    for n in SWEEP_NAMES:
+        x = n.replace("%", c)
+        if x not in names:
+            names.append(x)
+    return lists, names
+
+
+def _sweep(part, u):
+    for c in u["chars"]:
+        lists, names = sweep_items(c)
+        for files in lists:
+            part.states += 1
+            part.transitions += 1
+            kk = _kinds_key(files)
+            for ri, route in enumerate(ROUTES):
+                for nm in names:
+                    case = {"part": "list", "route": route, "files": files, "name": nm}
+                    bad = run_list_case(case)
+                    part.traces += 1
+                    part.evaluations += 1
+                    for sig, e, o in bad:
+                        part.violation(sig, case, e, o, rank=100)
+                    if ri == 0:
+                        exp = expected(files, nm)
+                        if exp is not False:
+                            part.nontrivial += 1
+                        part.outcomes["sweep:%s[%s]x%d" % ("VIOLATION" if bad else "match" if exp else "nomatch", kk, len(files))] += 1
+    part.max_depth = 2
+    lists, names = sweep_items(u["chars"][0])
+    part.sample({"part": "list", "route": "create", "files": lists[2], "name": names[1]})
+    return part
+
+
 # ------------------------------------------------------------------------------------------------ units
 
 def units(tier, seed):
@@ -111,6 +172,9 @@ def units(tier, seed):
         out.append(dict(base, part="pairs", first=p))
     for p in pa:
         out.append(dict(base, part="triples", first=p))
+    sc = sweep_chars()
+    for i in range(0, len(sc), SWEEP_CHUNK):
+        out.append({"part": "sweep", "chars": sc[i:i + SWEEP_CHUNK]})
     lists, names = hist_menu(seed)
     depth = 3 if tier == "quick" else 5
     for route in ROUTES:
@@ -137,6 +201,8 @@ def unit_cost(u, tier):
         return 42 * (7 ** u["n"]) * 3
     if part == "triples":
         return 36 * (7 ** u["n"]) * 3
+    if part == "sweep":
+        return len(u["chars"]) * 6 * 7 * 2 * 30
     if part == "hist-tree":
         return (9 ** u["depth"]) * 4
     if part == "hist-graph":
@@ -395,6 +461,8 @@ def run_unit(u, tier, seed):
         part.sample({"part": "list", "route": "create", "files": lists[0], "name": names[len(names) // 2]})
         part.sample({"part": "list", "route": "parse", "files": lists[-1], "name": names[-1]})
         return part
+    if kind == "sweep":
+        return _sweep(part, u)
     if kind == "hist-graph":
         return _hist_graph(part, u)
     if kind == "hist-tree":
